@@ -174,7 +174,7 @@ def checked_correspondence(ctx):
 
 
 def run(ctx):
-    explore(ctx, ctx.n(120, 3000), ctx.n(36, 600), p_degenerate=0.6, tag="m")
+    explore(ctx, ctx.n(105, 3000), ctx.n(24, 600), p_degenerate=0.6, tag="m")
     if not ctx.violations:
         checked_correspondence(ctx)
     ctx.notes.append("partial by nature: engine_never_faults is proved on the checked-access MODEL of the engine (all six algorithms, Init, "
